@@ -254,6 +254,24 @@ def api_job(job):
                 want = {s.id_ for s in inv.settings()}
                 if not want <= set(sd):
                     acc.fail("C11|api|%s|settings-keys" % fam, "missing %s" % sorted(want - set(sd))[:4], dict(case, call="read_settings_data"))
+        if fam == "ET":
+            # settings whose registers this firmware does not have (ILLEGAL DATA ADDRESS) or cannot be read at the moment
+            # (any other exception code) are still reported - as None - and the others are still decoded
+            inv2, sim2 = make_target(fam, k, seed)
+            offs = sorted({s.offset for s in inv2.settings()})
+            picked = [a for a in offs if mix(seed, k, a) % 5 == 0] or offs[k % len(offs):][:1]
+            sim2.refused.extend((a, a) for a in picked)
+            sim2.refuse_code = (2, 2, 4, 6)[k % 4]
+            before = {s.id_ for s in inv2.settings()}
+            refused_ids = {s.id_ for s in inv2.settings() if any(s.offset <= a < s.offset + max(1, (s.size_ + 1) // 2) for a in picked)}
+            sd2 = call("read_settings_data:refused", inv2.read_settings_data())
+            if sd2 is not None:
+                acc.nontrivial("api", fam, k, "settings-refused", tuple(picked))
+                if not before <= set(sd2):
+                    acc.fail("C11|api|%s|settings-keys|refused" % fam, "missing %s after %s were refused" % (sorted(before - set(sd2))[:4], sorted(refused_ids)[:4]),
+                             dict(case, call="read_settings_data", refused=picked))
+                # (no value comparison with the first object's result: the sensor definitions are shared between objects
+                #  and carry decoding state - that is C20's subject and known finding, not this property's)
         ids = [s.id_ for s in inv.settings()]
         for sid in ids[(k % 3)::3]:
             call("read_setting:" + sid, inv.read_setting(sid), single=True)
